@@ -57,6 +57,10 @@ func propC03(r *Run) {
 		w.fs.PutDir(w.base()+"/sub", 0o700) // makes Check fail, irrelevant here; holds a copy of a user
 		w.fs.Put(w.base()+"/sub/"+users[0]+".user", []byte(RefWrite(def, "sub-"+users[0], make([]byte, def.SaltLen()), 1000)+"\n"), 0o600)
 		w.fs.Put("/etc/passwd.user", []byte("root"), 0o644)
+		// what a bare extension resolves to when a name is dropped and the path becomes relative:
+		// files in the process's working directory
+		w.fs.Put("/.user", []byte(RefWrite(def, "cwd-decoy", make([]byte, def.SaltLen()), 1000)+"\n"), 0o600)
+		w.fs.Put("/.admin", []byte(RefWrite(def, "cwd-decoy", make([]byte, def.SaltLen()), 1000)+"\n"), 0o600)
 		if r.Choose("with-tmp-user", 2) == 1 {
 			w.fs.PutDir(w.base()+"/.tmp", 0o700)
 			w.fs.Put(w.base()+"/.tmp/"+users[0]+".user", []byte(RefWrite(def, "tmp-"+users[0], make([]byte, def.SaltLen()), 1000)+"\n"), 0o600)
